@@ -288,8 +288,9 @@ DenoteElem(lx, g) ==
 (*     orig, comp : sequences of                                           *)
 (*       [path, et, type, arr, asize, ref, emb, super, isnull, val,        *)
 (*        ovr, tosub, transl, toinst, dovr, dtosub, dtransl, dtoinst,      *)
-(*        scopes]                                                          *)
-(*     generated (tomof returned), accepted (the compiler accepted), lit   *)
+(*        scopes, cd]                                                      *)
+(*     generated (tomof returned), accepted (the compiler accepted), lit,  *)
+(*     declared (instance events: class-declared properties not given)     *)
 (***************************************************************************)
 InitState == 0
 Apply(s, e) == s
@@ -390,6 +391,27 @@ LitDiag(accepted, lit) ==
   THEN {"diag.miscounted." \o c : c \in MisCounted(lit)}
   ELSE {}
 
+(* Instance properties next to the default the CLASS declares for them     *)
+(* (see MofTextInst.tla).  The clauses are the ones above - the compiled   *)
+(* instance has the original's property names (Names) and values           *)
+(* (Values.<t>) whatever the class declares.  Every original element       *)
+(* carries  cd = [kind, isnull, val] : the default declared by the primed  *)
+(* class for this instance property (kind "" elsewhere, else one of        *)
+(* MofTextInst!DfltKinds); e.declared = paths of the properties the class  *)
+(* declares but the instance does not have.  Diagnosis only (added when a  *)
+(* clause fails): the class default has taken the place of the instance's  *)
+(* value / a property was instantiated from the class.                     *)
+ClassDfltDiag(e) ==
+  {"diag.ClassDefaultInsteadOfInstanceValue" :
+     p \in {q \in Paths(e.orig) \cap Paths(e.comp) :
+             LET o == AtPath(e.orig, q)
+                 c == AtPath(e.comp, q)
+             IN /\ o.cd.kind \in {"scalar", "array"}
+                /\ ~(o.isnull = c.isnull /\ o.val = c.val)
+                /\ c.isnull = o.cd.isnull /\ c.val = o.cd.val}}
+  \cup {"diag.ClassPropertyAddedToInstance" :
+          p \in (Paths(e.comp) \cap Rng(e.declared)) \ Paths(e.orig)}
+
 ObjFails(e) ==
   LET core ==
         IF ~e.generated THEN {"TomofReturnsText"}
@@ -401,7 +423,9 @@ ObjFails(e) ==
                            p \in Paths(e.orig) \cap Paths(e.comp)}
       haslit == e.lit.has /\ e.generated
       all == core \cup (IF haslit THEN LitFails(e.accepted, e.lit) ELSE {})
-  IN IF all # {} /\ haslit THEN all \cup LitDiag(e.accepted, e.lit) ELSE all
+  IN IF all = {} THEN {}
+     ELSE all \cup (IF haslit THEN LitDiag(e.accepted, e.lit) ELSE {})
+              \cup (IF e.generated /\ e.accepted THEN ClassDfltDiag(e) ELSE {})
 
 FoldParams(e, safe) ==
   [indent |-> e.indent, maxline |-> e.maxline, endsp |-> e.endsp,
